@@ -94,6 +94,8 @@ def usable(problem, n0, before0):
         problem.resolve_constraints()
     except dc.NoSolutionError:
         pass
+    except core.Timeout:
+        raise        # the harness's own time limit: the case is inconclusive, not a failure
     except Exception as e:  # noqa
         return "the problem can no longer be solved: %s: %s" % (type(e).__name__, str(e)[:80])
     if len(problem.sequence) != n0:
@@ -156,6 +158,8 @@ def impl_case(case):
             pass
         except dc.NoSolutionError:
             pass
+        except core.Timeout:
+            raise
         except Exception as e:  # noqa
             res["bad"] = (k, "another exception escaped while aborting: %s" % type(e).__name__)
             return res
